@@ -595,8 +595,11 @@ def run_main(fname):
 # =====================================================================================================
 RUN_FILES = ["forcing.nc", "f_1.nc", "f_2.nc", "data/f_1.nc", "data/f_2.nc", "grid.nc"]
 CUSTOM_GF = "from ladim.ROMS import Grid, Forcing  # noqa\n"
-CUSTOM_IBM = ("from ladim.ibm import IBM as _B\n\n\nclass IBM(_B):\n    def update(self):\n"
-              "        s = self.modules['state']\n        if 'age' in s.variables:\n            s['age'] = s['age'] + 1.0\n")
+# the user's IBM keeps state at MODULE level (a seeded generator, as examples/lakselus/salmon_lice_ibm.py does): every
+# Model loads the plug-in file afresh, so each of the spellings, run one after the other, starts from the same state
+CUSTOM_IBM = ("import numpy as np\nfrom ladim.ibm import IBM as _B\n\n_rng = np.random.default_rng(11)\n\n\nclass IBM(_B):\n    def update(self):\n"
+              "        s = self.modules['state']\n        if 'age' in s.variables:\n            s['age'] = s['age'] + 1.0\n"
+              "        s['Z'] = s['Z'] + 0.25 * _rng.integers(0, 2, len(s))\n")
 
 
 def master_dir(ctx):
